@@ -549,4 +549,142 @@ theorem tail_loop_early (hl : H.Lawful) (kl : List Keylog.Key) (L : SealLaws Pc)
     · rw [b2]
 
 end Tail
+section XDg
+variable (maskFn : Dissect.MaskFn) (H : Crypto.Prims) (Pc : Cipher.Prims)
+
+/-- the bookkeeping after the first `pos` long-header packets of the datagram, and after its 0-RTT packets -/
+def DgX.t1 (t : Trk) (d : DgX) : Trk := t.run (d.base.longs.take d.pos)
+def DgX.tz (t : Trk) (d : DgX) : Trk := d.zr.foldl (fun t q => t.zr q.x) (DgX.t1 t d)
+
+/-- the suite of the last `set_tls_decryptors` call after the datagram -/
+def ecsDgx (t : Trk) (ecs : Option SuiteSel) (d : DgX) : Option SuiteSel :=
+  ecsFold (DgX.tz t d).core (insOf (d.base.longs.drop d.pos)) (ecsFold t.core (insOf (d.base.longs.take d.pos)) ecs)
+
+/-- one datagram with 0-RTT packets, relative to the bookkeeping `t` and the suite `ecs` of the last `set_tls_decryptors`
+    call before it. `suite` is THE condition: when the 0-RTT packets are reached, the keys the tool holds were derived for
+    the suite `selR` the client protects 0-RTT with (after the ClientHello: the first offered suite; after the ServerHello:
+    the selected one). -/
+structure XDgOkE (L : SealLaws Pc) (dcid0 : Bytes) (sel selR : SuiteSel) (sh ch sa ca e : Bytes) (t : Trk)
+    (ecs : Option SuiteSel) (d : DgX) : Prop where
+  client : d.zr ≠ [] → d.base.srv = false
+  dirL : ∀ q ∈ d.base.longs, q.x.srv = d.base.srv ∧ q.x.ts = d.base.ts
+  dirZ : ∀ q ∈ d.zr, q.x.ts = d.base.ts
+  cid : DcidOk t.cc t.sc d.base.srv d.dcid
+  pre : HsPks maskFn H Pc L dcid0 sel sh ch t (d.base.longs.take d.pos)
+  suite : d.zr ≠ [] → ecsFold t.core (insOf (d.base.longs.take d.pos)) ecs = some selR
+  zr : ∀ (i : Nat) (q : PkH), d.zr[i]? = some q → ZrShape q.x ∧ (∀ f ∈ q.x.frames, isCryptoQ f = false) ∧
+      WellFormedSeq q.x.frames ∧
+      PnLenOk ((d.zr.take i).foldl (fun t q => t.zr q.x) (DgX.t1 t d)).tc.app q.x.pn q.x.pnLen ∧
+      maskFn (chachaOf (DgX.t1 t d).core) (quicHp (hashOf H selR.hash) e selR.keyLen)
+        (longOf q.x (protectedPayload L.aeadSeal selR.alg (earlyDec H selR e).client q.x)).sample = some q.mask ∧
+      5 ≤ q.mask.length
+  post : HsPks maskFn H Pc L dcid0 sel sh ch (DgX.tz t d) (d.base.longs.drop d.pos)
+  short : ∀ o, d.base.short = some o → o.x.srv = d.base.srv ∧ o.x.ts = d.base.ts ∧ o.x.dcid = d.dcid ∧
+      ((DgX.tz t d).run (d.base.longs.drop d.pos)).keyed = true ∧ o.x.level = .oneRtt ∧ o.x.gen = 0 ∧
+      PnLenOk (if o.x.srv then ((DgX.tz t d).run (d.base.longs.drop d.pos)).ts.app
+        else ((DgX.tz t d).run (d.base.longs.drop d.pos)).tc.app) o.x.pn o.x.pnLen ∧ WellFormedSeq o.x.frames ∧
+      DgOk maskFn Pc L sel.alg (genDir (keyUpdate H sel .v1) (rfcGen (hashOf H sel.hash) sel.keyLen sa ca 0) o.x.srv 0)
+        (if o.x.srv then quicHp (hashOf H sel.hash) sa sel.keyLen else quicHp (hashOf H sel.hash) ca sel.keyLen)
+        (chachaOf ((DgX.tz t d).run (d.base.longs.drop d.pos)).core) o
+
+theorem zr_core (t : Trk) (qs : List PkH) : (qs.foldl (fun t q => t.zr q.x) t).core = t.core ∧
+    (qs.foldl (fun t q => t.zr q.x) t).keyed = t.keyed := by
+  induction qs generalizing t with
+  | nil => exact ⟨rfl, rfl⟩
+  | cons q qs ih => simp only [List.foldl_cons]; exact ⟨(ih _).1, (ih _).2⟩
+
+theorem dgx_eq (t : Trk) (d : DgX) :
+    t.dgx d = match d.base.short with
+      | none => (DgX.tz t d).run (d.base.longs.drop d.pos)
+      | some o => ((DgX.tz t d).run (d.base.longs.drop d.pos)).short o.x := rfl
+
+
+/-- what the 0-RTT packets of a datagram put into `output_buffer` -/
+def _root_.TLX.Props.C02Capstone3.DgX.zrOut (d : DgX) : List Out := d.zr.flatMap fun q => expectedOf .rtt0 q.x
+
+/-- **One datagram with 0-RTT packets** through `handle_packet`, for a state in the handshake invariant. -/
+theorem x_dg_step (hl : H.Lawful) (kl : List Keylog.Key) (L : SealLaws Pc) (dcid0 cr csel ch sh ca sa e : Bytes)
+    (sel selR : SuiteSel) (csR : Bytes) (hsel : selectSuite csel = some sel) (hselR : selectSuite csR = some selR)
+    (hkl : KeylogHas kl cr ch sh ca sa (some e))
+    (ho : (hashOf H sel.hash).outLen < 65536)
+    (hsa : sa.length = (hashOf H sel.hash).outLen) (hca : ca.length = (hashOf H sel.hash).outLen)
+    (t : Trk) (ecs : Option SuiteSel) (d : DgX) (hok : XDgOkE maskFn H Pc L dcid0 sel selR sh ch sa ca e t ecs d)
+    (rest : List CryptoIn) (s : St Tls)
+    (hst : HsSt H dcid0 sel ch sh ca sa t.keyed (feedPre H (params H Pc kl) s d.dcid (sver d.ver)) t.tc t.ts t.cc t.sc
+      t.core)
+    (hinv : EInv H e ecs (feedPre H (params H Pc kl) s d.dcid (sver d.ver)))
+    (htr : PTrace cr csel t.core (insOf d.base.longs ++ rest)) :
+    let r := handleDatagram maskFn H (params H Pc kl) s (!d.base.srv) d.dcid (sver d.ver) d.base.ts
+      (DgX.wire H Pc L dcid0 sel selR sh ch sa ca e d)
+    r.2 = none ∧
+    HsSt H dcid0 sel ch sh ca sa (t.dgx d).keyed (noOut r.1) (t.dgx d).tc (t.dgx d).ts (t.dgx d).cc (t.dgx d).sc
+      (t.dgx d).core ∧
+    PTrace cr csel (t.dgx d).core rest ∧ EInv H e (ecsDgx t ecs d) r.1 ∧
+    expo r.1.out = expo d.zrOut ++ expo d.base.shortOut := by
+  obtain ⟨hclient, hdirL, hdirZ, hcid, hpre, hsuite, hzr, hpost, hshort⟩ := hok
+  generalize hs0 : feedPre H (params H Pc kl) s d.dcid (sver d.ver) = s0 at hst hinv
+  have hsrv : packetIsServer s0 (!d.base.srv) d.dcid = d.base.srv :=
+    packetIsServer_of_dcidOk s0 t.cc t.sc hst.cc hst.sc d.base.srv d.dcid hcid
+  have hsplit : insOf d.base.longs = insOf (d.base.longs.take d.pos) ++ insOf (d.base.longs.drop d.pos) := by
+    unfold insOf; rw [← List.flatMap_append, List.take_append_drop]
+  -- the long-header packets before the 0-RTT packets
+  generalize hWt : ((d.base.longs.drop d.pos).map (pkWire H Pc L dcid0 sel sh ch)).flatten ++
+    (d.base.short.map (wireOf H Pc L sel .v1 (rfcGen (hashOf H sel.hash) sel.keyLen sa ca 0))).getD [] = Wt
+  obtain ⟨s1, a1, a2, a3, a4⟩ := hs_loop_early maskFn H Pc hl kl L dcid0 cr csel ch sh ca sa e sel hsel hkl d.base.srv
+    d.base.ts d.dcid (d.base.longs.take d.pos) (fun q hq => hdirL q (List.mem_of_mem_take hq))
+    (insOf (d.base.longs.drop d.pos) ++ rest) ((d.zr.map (zrWire H Pc L selR e)).flatten ++ Wt) t s0 hst hpre
+    (by rw [← List.append_assoc, ← hsplit]; exact htr) ecs hinv
+  -- the 0-RTT packets
+  have hz : ∃ s2, HsSt H dcid0 sel ch sh ca sa (DgX.tz t d).keyed (noOut s2) (DgX.tz t d).tc (DgX.tz t d).ts
+      (DgX.tz t d).cc (DgX.tz t d).sc (DgX.tz t d).core ∧
+      EInv H e (ecsFold t.core (insOf (d.base.longs.take d.pos)) ecs) s2 ∧ s2.out = s1.out ++ d.zrOut ∧
+      (Dissect.dissectLoop maskFn (fun x : LoopSt => envOf x.1) (handleTurn (params H Pc kl)) d.base.srv d.dcid d.base.ts
+        (s1, none) ((d.zr.map (zrWire H Pc L selR e)).flatten ++ Wt)).1 =
+      (Dissect.dissectLoop maskFn (fun x : LoopSt => envOf x.1) (handleTurn (params H Pc kl)) d.base.srv d.dcid d.base.ts
+        (s2, none) Wt).1 := by
+    by_cases hzn : d.zr = []
+    · refine ⟨s1, ?_, a3, by simp [DgX.zrOut, hzn], by simp [hzn]⟩
+      simp only [DgX.tz, hzn, List.foldl_nil]
+      exact hsSt_noOut H _ _ _ _ _ _ _ _ _ _ _ _ _ a1
+    · have hek : EarlyKeyed H selR e s1 := a3 selR (hsuite hzn)
+      obtain ⟨s2, b1, b2, b3, b4⟩ := zr_loop maskFn H Pc hl kl L dcid0 sel selR csR hselR ch sh ca sa e d.base.ts d.dcid d.zr
+        hdirZ Wt (DgX.t1 t d) s1 (hsSt_noOut H _ _ _ _ _ _ _ _ _ _ _ _ _ a1) hek hzr
+      refine ⟨s2, b1, ?_, b3, ?_⟩
+      · intro selX hx
+        rw [hsuite hzn] at hx
+        cases hx
+        exact b2
+      · rw [hclient hzn]; exact b4
+  obtain ⟨s2, c1, c2, c3, c4⟩ := hz
+  -- the rest of the datagram, on the state without its output buffer
+  have htzc : (DgX.tz t d).core = (DgX.t1 t d).core := (zr_core _ d.zr).1
+  have a2' : PTrace cr csel (DgX.tz t d).core (insOf (d.base.longs.drop d.pos) ++ rest) := by rw [htzc]; exact a2
+  obtain ⟨s3, e1, e2, e3, e4, J, e5, e6⟩ := tail_loop_early maskFn H Pc hl kl L dcid0 cr csel ch sh ca sa e sel hsel hkl ho hsa
+    hca d.base.srv d.base.ts d.dcid (d.base.longs.drop d.pos) d.base.short
+    (fun q hq => hdirL q (List.mem_of_mem_drop hq)) rest (DgX.tz t d) (noOut s2) c1 hpost a2'
+    (ecsFold t.core (insOf (d.base.longs.take d.pos)) ecs) (eInv_noOut H e _ s2 c2) hshort
+  rw [hWt] at e1
+  have hw := dissectLoop_wo maskFn (params H Pc kl) s2.out d.base.srv d.dcid d.base.ts Wt (noOut s2, none)
+  simp only [wo_noOut] at hw
+  intro r
+  have hr : r = (wo s2.out s3, none) := by
+    show handleDatagram _ _ _ _ _ _ _ _ _ = _
+    unfold handleDatagram
+    simp only [hs0, hsrv]
+    unfold DgX.wire
+    rw [List.append_assoc, List.append_assoc, hWt, a4, c4, hw, e1]
+  rw [hr, dgx_eq]
+  refine ⟨rfl, ?_, ?_, ?_, ?_⟩
+  · rw [noOut_wo]
+    cases hso : d.base.short <;> simp only [hso] at e2 ⊢ <;> exact e2
+  · cases hso : d.base.short <;> simp only [hso] at e3 ⊢ <;> exact e3
+  · unfold ecsDgx
+    exact eInv_wo H e _ _ _ e4
+  · show expo (s2.out ++ s3.out) = _
+    rw [c3, e6, expo_append, expo_append, expo_append, expo_none _ a1.inv.out, expo_none J e5]
+    simp only [List.nil_append, DgM.shortOut]
+    congr 2
+    split <;> split <;> first | rfl | simp_all
+
+end XDg
 end TLX.Props.C02Capstone4
